@@ -280,6 +280,52 @@ theorem dial_ok_payload_exact (pad payload : Bytes) (cs : List Bytes)
   | eof => rw [hx] at hrt; simp [Frame.Rd.map] at hrt
   | proto st => rw [hx] at hrt; simp [Frame.Rd.map] at hrt
 
+/-! ### one_response_header_per_request: whether no hook is configured, a configured hook
+    declines the request or it intercepts it, and whether the dial fails or succeeds,
+    handleTCPRequest writes EXACTLY ONE TCPResponse; with a declining hook it is byte for
+    byte the response of the hook-less server (so `dial_error_delivered` and
+    `dial_ok_payload_exact` apply unchanged). -/
+theorem one_response_header_per_request (v : Variant) (hook : Hook) (dial : Option Bytes) (pad1 pad2 : Bytes) :
+    (serverResponses v hook dial pad1 pad2).1.length = 1 ∧
+    (hook ≠ .intercepts → (serverResponses v hook dial pad1 pad2).1 = [(serverRespond v dial pad2).1]) ∧
+    (serverResponses v hook dial pad1 pad2).2 = (serverRespond v dial pad2).2 := by
+  cases hook <;> cases dial <;> simp [serverResponses, serverRespond]
+
+/-! ### response_read_exactly_once_even_after_failed_read: `Established` is set only after a
+    successful response read, so Reads that time out before the response arrives change
+    nothing; whatever mix of timed-out and proceeding Reads follows `TCP()`, with or
+    without fast open, the bytes handed to the application are a prefix of what the relay
+    wrote after the response (no header byte is ever delivered as payload), and after a
+    failed dial the first Read that proceeds returns the DialError however many Reads
+    timed out before it. -/
+theorem response_read_exactly_once_even_after_failed_read (pad payload : Bytes) (cs : List Bytes)
+    (fo : Bool) (evs : List RdEv)
+    (hp : pad.length < Gen.tcpResponsePaddingMax)
+    (hcs : cs.flatten = (serverRespond .fixed none pad).1 ++ payload) :
+    ∃ c, connAfterTCP fo cs = some c ∧ dataOf (appReads c evs) <+: payload := by
+  obtain ⟨⟨rest, hopen, hrest⟩, _⟩ := dial_ok_payload_exact pad payload cs hp hcs
+  cases fo with
+  | false =>
+    refine ⟨⟨true, rest⟩, by simp [connAfterTCP, hopen], ?_⟩
+    rw [← hrest]
+    exact appReads_established_prefix evs ⟨true, rest⟩ rfl
+  | true =>
+    refine ⟨⟨false, cs⟩, by simp [connAfterTCP], ?_⟩
+    rw [← hrest]
+    exact appReads_fresh_prefix evs cs rest hopen
+
+theorem dial_error_after_failed_reads (s pad rest : Bytes) (cs : List Bytes) (k : Nat)
+    (hp : pad.length < Gen.tcpResponsePaddingMax)
+    (hcs : cs.flatten = (serverRespond .fixed (some s) pad).1 ++ rest) :
+    connAfterTCP true cs = some ⟨false, cs⟩ ∧
+    appReads ⟨false, cs⟩ (List.replicate k .timeout ++ [.go]) =
+      List.replicate k .timeout ++ [.dialError (boundMsg s)] := by
+  refine ⟨by simp [connAfterTCP], ?_⟩
+  obtain ⟨r', hr⟩ := clientOpen_dialError_read (dial_error_delivered s pad rest cs hp hcs).1
+  induction k with
+  | zero => simp [appReads, connRead, hr]
+  | succ k ih => simpa [List.replicate_succ, appReads, connRead] using ih
+
 /-! ### the pinned tree (before the repairs): witnesses -/
 
 /-- D5: without the bound, an error text of 2049..16383 bytes makes the client's own
@@ -378,6 +424,18 @@ example : (copyLoop [⟨[byte 7, byte 8, byte 9], none⟩] [true] [some 2]).writ
 /-- hypotheses of `d5_pinned_counterexample`: an error text one byte over the limit -/
 example : 2048 < (List.replicate 2049 (byte 97)).length ∧ (List.replicate 2049 (byte 97)).length ≤ 16383 := by
   rw [List.length_replicate]; decide
+
+/-- two Reads time out, then the response of a failed dial is read: DialError, nothing else -/
+example : appReads ⟨false, [Frame.writeResponse false [byte 110, byte 111] [byte 0]]⟩ [.timeout, .timeout, .go] =
+    [.timeout, .timeout, .dialError [byte 110, byte 111]] := by decide
+
+/-- a timed-out Read, then the payload: the header is consumed exactly once, never delivered -/
+example : dataOf (appReads ⟨false, [Frame.writeResponse true connectedMsg [byte 0], [byte 7, byte 8]]⟩
+    [.timeout, .go, .timeout, .go]) = [byte 7, byte 8] := by decide
+
+/-- a declining hook: one response, the hook-less one; an intercepting hook: one response too -/
+example : (serverResponses .fixed .declines (some [byte 110]) [] []).1 = [(serverRespond .fixed (some [byte 110]) []).1] ∧
+    (serverResponses .fixed .intercepts (some [byte 110]) [] []).1.length = 1 := by decide
 
 /-- a dial error text that needs the bound, and one that does not -/
 example : (boundMsg (List.replicate 2100 (byte 97))).length = 2048 := by
